@@ -19,7 +19,7 @@ from ..typestate import Walker
 RULES = {
     'C14.R1': 'no solve is issued while the previous solve is unchecked, nor after a non-Optimal status was observed (typestate, loops to fixpoint, value-sensitive helper summaries)',
     'C14.R3': "run() returns LpStatus of the latest solve and Solver.solve stores exactly that in model.pulp_status",
-    'C14.R5': 'the time limit handed to solve() is the one recorded on the model (the Timeout gate reads it) and the one given to the MILP solver',
+    'C14.R6': 'the time limit handed to solve() is the one recorded on the model, on every path (the Timeout gate of get_results reads it from there)',
     'C14.R4': 'matching / statistics / stability_correct output is edge-dominated by the Timeout gate (limit set and (Not Solved or total_s > limit)) and by the Optimal gate',
     'C14.R5': 'brute-force results never read LP state (lp_var, varValue, pulp_status)',
 }
@@ -100,9 +100,9 @@ def run(rep, repo, tier):
 
 
 def check_limit_plumbing(rep, repo):
-    """R5: the limit handed to Solver.solve is the limit get_results compares the elapsed time with, and the one the MILP
+    """R6: the limit handed to Solver.solve is the limit get_results compares the elapsed time with, and the one the MILP
     solver is given: model.time_limit = <timeLimit parameter> is stored before the run starts"""
-    rule = 'C14.R5'
+    rule = 'C14.R6'
     f = repo.method('Solver', 'solve')
     ps = [p_ for p_ in f.params if p_ != 'self']
     if len(ps) < 2:
